@@ -14,31 +14,44 @@ from . import terms as T
 VERIF = mir.VERIF
 
 # property -> list of rule modules (each has run(ctx)); shared modules implement dependencies between properties
-# property -> rule modules.  The first module holds the property's own rules; the others are the rule sets of the
-# mechanisms its statement rests on (DESIGN 4: e.g. membership is nullable(str_derivative(..)), so C01 also needs the
-# derivative, partition, loop-range and subsumption rules; compile marks final states by the nullable flag, so C02 needs C01's).
-PROPERTIES = {
-    'C01': ['c01', 'c03', 'c07', 'c11', 'c15', 'c16'],
-    'C02': ['c02', 'c01', 'c03', 'c11', 'c12', 'c13', 'c15', 'c16', 'c19'],
-    'C03': ['c03', 'c01', 'c11', 'c12', 'c15', 'c16'],
-    'C04': ['c04', 'c11', 'c12', 'c14'],
-    'C05': ['c05', 'c01', 'c03', 'c11', 'c12', 'c19'],
-    'C06': ['c06'],
-    'C07': ['c07'],
-    'C08': ['c08'],
-    'C09': ['c09'],
-    'C10': ['c10', 'c01', 'c03', 'c11'],
-    'C11': ['c11'],
-    'C12': ['c12', 'c11'],
-    'C13': ['c13', 'c11'],
-    'C14': ['c14', 'c11', 'c12'],
-    'C15': ['c15'],
-    'C16': ['c16', 'c15'],
-    'C17': ['c17'],
-    'C18': ['c18', 'c03', 'c05', 'c11'],
-    'C19': ['c19', 'c02', 'c03', 'c11'],
-    'C20': ['c20'],
+# rule module -> the modules of the mechanisms its rules take for granted (uninterpreted callees, assumed invariants).
+# A property's check runs its own module and the transitive closure of these (DESIGN 2): e.g. membership is
+# nullable(str_derivative(..)), so C01 needs the derivative rules, which need the partition rules, which need CharSet's.
+DEPS = {
+    'c01': ['c03', 'c07', 'c15', 'c16', 'c20'],
+    'c02': ['c01', 'c03', 'c13', 'c19'],
+    'c03': ['c01', 'c11', 'c12'],
+    'c04': ['c14'],
+    'c05': ['c01', 'c03', 'c19'],
+    'c06': [],
+    'c07': ['c01'],
+    'c08': [],
+    'c09': [],
+    'c10': ['c01', 'c03'],
+    'c11': ['c20'],
+    'c12': ['c11'],
+    'c13': ['c11'],
+    'c14': ['c11', 'c12'],
+    'c15': [],
+    'c16': ['c15', 'c20'],
+    'c17': [],
+    'c18': ['c03', 'c05'],
+    'c19': ['c02', 'c03', 'c07'],
+    'c20': [],
 }
+
+
+def closure(mod):
+    out, todo = [mod], list(DEPS[mod])
+    while todo:
+        m = todo.pop(0)
+        if m not in out:
+            out.append(m)
+            todo.extend(DEPS[m])
+    return [out[0]] + sorted(out[1:])
+
+
+PROPERTIES = {'C%02d' % k: closure('c%02d' % k) for k in range(1, 21)}
 
 LEVEL_TEXT = 'static rule instances over type-checked MIR (abstract interpretation / dataflow / table comparison); necessary conditions only'
 
